@@ -255,6 +255,8 @@ pub struct Request {
     pub paramlist: Vec<u8>,
     pub if_mtu: Option<u32>,
     pub if_router: Option<u32>,
+    /// relay agent address in the BOOTP header (0 = not relayed); the model does not look at it
+    pub giaddr: u32,
 }
 
 #[derive(Clone, Copy, PartialEq, Debug)]
